@@ -227,6 +227,39 @@ func c07(c *Ctx) {
 					okLoop, loopStore = true, cp
 				}
 			}
+			// the routine the slots default to: every function of package iface whose address is taken with
+			// reflect.ValueOf(f).Pointer() for that purpose never returns normally — it panics on every path
+			for _, f2 := range p.FuncsIn("internal/iface") {
+				eachInstr(f2, func(i ssa.Instruction) {
+					cl, ok := i.(*ssa.Call)
+					if !ok || calleeName(cl.Common()) != "reflect.ValueOf" {
+						return
+					}
+					fn, ok := peel(cl.Call.Args[0]).(*ssa.Function)
+					if !ok || fn.Blocks == nil || relPkg(fn) != "internal/iface" || fn.Signature.Params().Len() != 0 || fn.Signature.Results().Len() != 0 {
+						return
+					}
+					// its Pointer() is what is stored
+					usedAsDefault := false
+					for _, ref := range *cl.Referrers() {
+						if c2, ok := ref.(*ssa.Call); ok && calleeName(c2.Common()) == "(reflect.Value).Pointer" {
+							usedAsDefault = true
+						}
+					}
+					if !usedAsDefault {
+						return
+					}
+					panics := len(returnsOf(fn)) == 0
+					hasPanic := false
+					eachInstr(fn, func(j ssa.Instruction) {
+						if _, ok := j.(*ssa.Panic); ok {
+							hasPanic = true
+						}
+					})
+					r.Check(panics && hasPanic, "C07.R3", "default routine "+shortName(fn)+" panics", p.Pos(fn.Pos()), "no normal return",
+						"the routine every un-mocked slot points to can return normally: calling a method that was not mocked silently returns garbage instead of panicking with 'method not implements'")
+				})
+			}
 			r.Check(okLoop, "C07.R3", "every slot defaulted in MakeInterface", p.Pos(mi.Pos()), "for i in 0..len(table): table[i] = notImplemented", "not every slot of the fabricated method table is defaulted to the not-implemented routine: calling an un-mocked method jumps to address 0 / garbage instead of panicking with 'method not implements'")
 			after := okLoop && okSlot && loopStore != nil && slotStore != nil && !reachableAfter(slotStore, loopStore)
 			r.Check(okSlot && after, "C07.R3", "mocked slot set after defaulting in MakeInterface", p.Pos(mi.Pos()), "table[index] = stub after the default loop", "the mocked slot is not stored at the requested index after the defaulting loop (it is overwritten by the default or stored elsewhere)")
